@@ -8,13 +8,20 @@ pub mod tensor {
     impl Clone for Shape { #[verifier::external_body] fn clone(&self) -> (r: Self) ensures r == *self { unimplemented!() } }
 }
 #[verifier::external_body] pub struct Rest { _p: u8 }
-pub mod dense { pub struct Dense { pub outputs: super::tensor::Shape, pub rest: super::Rest } }
+pub mod activation { #[verifier::external_body] pub struct Activation { _p: u8 } }
+pub mod dense {
+    use vstd::prelude::*;
+    pub struct Dense { pub inputs: super::tensor::Shape, pub outputs: super::tensor::Shape, pub rest: super::Rest }
+    // Dense::create records the two shapes it is given (A: read from src/dense.rs; weights / bias sized from them are C08's native grid shapes.chain)
+    impl Dense { #[verifier::external_body] pub fn create(inputs: super::tensor::Shape, outputs: super::tensor::Shape, activation: &super::activation::Activation, bias: bool, dropout: Option<f32>) -> (r: Dense)
+        ensures r.inputs == inputs, r.outputs == outputs { unimplemented!() } }
+}
 pub mod convolution { pub struct Convolution { pub outputs: super::tensor::Shape, pub flatten: bool, pub rest: super::Rest } }
 pub mod deconvolution { pub struct Deconvolution { pub outputs: super::tensor::Shape, pub flatten: bool, pub rest: super::Rest } }
 pub mod maxpool { pub struct Maxpool { pub outputs: super::tensor::Shape, pub flatten: bool, pub rest: super::Rest } }
 pub mod feedback { pub struct Feedback { pub outputs: super::tensor::Shape, pub flatten: bool, pub rest: super::Rest } }
 pub enum Layer { Dense(dense::Dense), Convolution(convolution::Convolution), Deconvolution(deconvolution::Deconvolution), Maxpool(maxpool::Maxpool), Feedback(feedback::Feedback) }
-pub struct Network { pub layers: Vec<Layer> }
+pub struct Network { pub input: tensor::Shape, pub layers: Vec<Layer> }
 pub open spec fn outputs_of(l: Layer) -> tensor::Shape {
     match l { Layer::Dense(d) => d.outputs, Layer::Convolution(d) => d.outputs, Layer::Deconvolution(d) => d.outputs, Layer::Maxpool(d) => d.outputs, Layer::Feedback(d) => d.outputs }
 }
@@ -44,6 +51,7 @@ fn dense_inputs_region(&mut self) -> (inputs: tensor::Shape)
         old(self).layers@[old(self).layers@.len() - 1] is Dense ==> outputs_of(old(self).layers@[old(self).layers@.len() - 1]) is Single,
         //@requires-extra
     ensures
+        final(self).input == old(self).input,
         final(self).layers@.len() == old(self).layers@.len(), //@ob no_layer_added_or_removed_here
         forall|i: int| 0 <= i < old(self).layers@.len() - 1 ==> #[trigger] final(self).layers@[i] == old(self).layers@[i], //@ob earlier_layers_untouched
         same_but_flatten(old(self).layers@[old(self).layers@.len() - 1], final(self).layers@[final(self).layers@.len() - 1]), //@ob predecessor_otherwise_unchanged
@@ -65,6 +73,40 @@ fn dense_inputs_region(&mut self) -> (inputs: tensor::Shape)
     //@body file=src/network.rs impl=Network fn=dense part="region:/let inputs = match &mut self\.layers\.last_mut\(\)\.unwrap\(\) \{/../let inputs = match/" rewrites=R13,R51 loops=0
     //@endbody
     inputs
+}
+}
+//@endunit
+
+// ---- the WHOLE Network::dense: first-layer arm + the region above (called by its contract) + the push of the new layer ----------------------
+/// what the new dense layer must take as input: the network's input if it is the first layer, else what the region computes from the predecessor
+pub open spec fn dense_takes(net: Network) -> tensor::Shape {
+    if net.layers@.len() == 0 { net.input } else {
+        match outputs_of(net.layers@[net.layers@.len() - 1]) { tensor::Shape::Triple(c, h, w) => tensor::Shape::Single((c * h * w) as usize), o => o }
+    }
+}
+//@unit network.dense prop=C08
+impl Network {
+pub fn dense(&mut self, outputs: usize, activation: activation::Activation, bias: bool, dropout: Option<f32>)
+    requires
+        // a first dense layer needs a flat network input (otherwise `panic!`: refused)
+        old(self).layers@.len() == 0 ==> old(self).input is Single,
+        old(self).layers@.len() >= 1 ==> (outputs_of(old(self).layers@[old(self).layers@.len() - 1]) is Single || outputs_of(old(self).layers@[old(self).layers@.len() - 1]) is Triple),
+        old(self).layers@.len() >= 1 && outputs_of(old(self).layers@[old(self).layers@.len() - 1]) is Triple ==> ({ let o = outputs_of(old(self).layers@[old(self).layers@.len() - 1]); o->Triple_0 * o->Triple_1 * o->Triple_2 <= usize::MAX && o->Triple_0 >= 1 && o->Triple_1 >= 1 && o->Triple_2 >= 1 }),
+        old(self).layers@.len() >= 1 && old(self).layers@[old(self).layers@.len() - 1] is Dense ==> outputs_of(old(self).layers@[old(self).layers@.len() - 1]) is Single,
+        //@requires-extra
+    ensures
+        final(self).input == old(self).input,
+        final(self).layers@.len() == old(self).layers@.len() + 1, //@ob exactly_one_layer_appended
+        forall|i: int| 0 <= i < old(self).layers@.len() - 1 ==> #[trigger] final(self).layers@[i] == old(self).layers@[i], //@ob earlier_layers_untouched
+        old(self).layers@.len() >= 1 ==> same_but_flatten(old(self).layers@[old(self).layers@.len() - 1], final(self).layers@[old(self).layers@.len() - 1]), //@ob predecessor_otherwise_unchanged
+        old(self).layers@.len() >= 1 && outputs_of(old(self).layers@[old(self).layers@.len() - 1]) is Triple ==> flatten_of(final(self).layers@[old(self).layers@.len() - 1]), //@ob spatial_predecessor_is_told_to_flatten
+        final(self).layers@[final(self).layers@.len() - 1] is Dense
+            && final(self).layers@[final(self).layers@.len() - 1]->Dense_0.inputs == dense_takes(*old(self))
+            && final(self).layers@[final(self).layers@.len() - 1]->Dense_0.outputs == tensor::Shape::Single(outputs), //@ob new_layer_is_dense_from_the_previous_announced_size_to_the_requested_width
+{
+    //@body file=src/network.rs impl=Network fn=dense part=whole rewrites=R13 loops=0
+    //@outline unit=network.dense.after call="let inputs = self.dense_inputs_region();"
+    //@endbody
 }
 }
 //@endunit
